@@ -135,6 +135,10 @@ func zzC10Tillage(n, mix int) {
 	vAssume(depth > 0 && depth <= float64(10*n))
 	g.EINT[0] = depth
 	g.TILART[0] = mix
+	// depth of the mineralisation zone (a multiple of the layer thickness, independent of the tillage depth)
+	izm := vInt("izm_layers")
+	vAssume(izm >= 1 && izm <= n)
+	g.IZM = 10 * izm
 	var sums0 [5]float64
 	for i := 0; i < n; i++ {
 		g.NFOS[i] = vFloat("nfos", i)
